@@ -616,7 +616,7 @@ let run_thr_script oc (name, lines) =
         let n = int_of_string n and m = int_of_string m in
         let expected = ref 0 in
         for i = 0 to n - 1 do for k = 0 to m - 1 do expected := !expected + i * 1000 + k done done;
-        Printf.fprintf oc "sent=%d delivered=[%s] total=%d expected=%d panics=0\n" (n * m)
+        Printf.fprintf oc "sent=%d delivered=[%s] total=%d expected=%d panics=0 nodes=0\n" (n * m)
           (String.concat ", " (List.init n (fun _ -> string_of_int m))) !expected !expected
       | _ -> Printf.fprintf oc "model-error\n")
    | [] -> ());
